@@ -161,6 +161,11 @@ fn rnd_font(r: &mut StdRng, height: u8, name: &str) -> BitFont {
         data[32 * height as usize + row] = 0;       // space is blank
         data[219 * height as usize + row] = 0xFF;   // full block is solid
     }
+    // the font name travels in the 22-byte SAUCE TInfoS field of some formats: names of every length class around it
+    let name = match r.gen_range(0..8) {
+        0 => "n".repeat(21), 1 => "n".repeat(22), 2 => "n".repeat(23), 3 => "Codepage 1251 Cyrillic, (swiss)".to_string(), 4 => String::new(), 5 => "n".repeat(40),
+        _ => name.to_string(),
+    };
     BitFont::create_8(name, 8, height, &data)
 }
 
